@@ -522,7 +522,7 @@ class RunLoop(Unit):
         self.n0 = E.new_int('queue-length', 0, None)
         self.queue = AbsDeque(self.n0)
         lock = GhostLock()
-        conn = types.SimpleNamespace()
+        conn = object.__new__(Connection)      # real class: private helpers of the loop resolve; effects are ghost closures
         fail_at = E.fork(2, 'write-fails')
         ioerr = IOError('broken pipe')
         timeouts = []
@@ -627,7 +627,7 @@ class RunLoop(Unit):
 
 def replay_run():
     """The real _run against a scripted connection: order and exactly-once across the batch limits."""
-    conn = types.SimpleNamespace()
+    conn = object.__new__(Connection)          # a real Connection: helpers the loop may call exist; I/O is scripted
     conn._write_lock = threading.RLock()
     q = deque(range(700))
     written, reacted = [], []
@@ -674,7 +674,7 @@ def replay_run():
     if bad is None:
         # the reader fails: _run must end with that very exception (it is run() that routes it)
         for exc in (EOFError('Unexpected end of stream.'), ValueError('bad frame'), OSError(104, 'Connection reset by peer')):
-            conn2 = types.SimpleNamespace()
+            conn2 = object.__new__(Connection)
             conn2._write_lock = threading.RLock()
             conn2._outgoing_packet_queue = deque()
             conn2._pop_packet = lambda: False
